@@ -29,53 +29,79 @@ from harness.common import exc_name
 
 PID = "C11"
 TITLE = "SplitIntoBins runs the analysis per cell on exactly that cell's values"
-LEAN_MODULES = ["LenaModel.Props.C11"]
+LEAN_MODULES = ["LenaModel.Props.C11", "LenaModel.Props.C11E"]
 LEAN_SOURCES = ["LenaModel/Model/C11.lean", "LenaModel/Model/C11Spec.lean", "LenaModel/Model/C11Conc.lean",
-                "LenaModel/Lemmas/C11.lean",
+                "LenaModel/Lemmas/C11.lean", "LenaModel/Props/C11E.lean",
                 "LenaModel/Props/C11.lean"]
 DRIVER = "drivers/C11.lean"
 THEOREMS = [
+    # sentences 1-4 in one statement; sentence 1
     "Lena.C11.split_into_bins_spec",
     "Lena.C11.cell_is_subflow",
+    "Lena.C11.cell_is_halfopen_subflow",
     "Lena.C11.cells_share_nothing",
     "Lena.C11.fill_one",
-    "Lena.C11.outside_ignored",
     "Lena.C11.fill_error_is_cells",
     "Lena.C11.route_inCell",
-    "Lena.C11.route_outside",
     "Lena.C11.subflow_halfopen",
-    "Lena.C11.context_is_last_inside",
+    # sentence 2
+    "Lena.C11.outside_ignored",
+    "Lena.C11.route_outside",
+    # sentence 3 (lazy post-elements, then any analysis)
     "Lena.C11.result_shape",
     "Lena.C11.result_count_le",
     "Lena.C11.result_count_stop",
     "Lena.C11.compute_raise",
     "Lena.C11.compute_complete",
-    "Lena.C11.compute_context_error",
-    "Lena.C11.variable_in_context",
-    "Lena.C11.context_frame",
-    "Lena.C11.variable_fresh",
+    "Lena.C11.result_shapeE",
+    "Lena.C11.result_count_leE",
+    "Lena.C11.result_count_stopE",
+    "Lena.C11.compute_raiseE",
+    "Lena.C11.compute_completeE",
+    "Lena.C11.computeE_start_error",
+    "Lena.C11.mkHistogram_ok",
+    # sentence 4
+    "Lena.C11.context_is_last_inside",
+    "Lena.C11.compute_twice_untyped",
+    # sentence 5
     "Lena.C11.iterate_bins_once",
     "Lena.C11.iterate_each_cell_once",
     "Lena.C11.iterate_all_cells",
     "Lena.C11.cell_edges_own",
     "Lena.C11.iterate_bins_count",
     "Lena.C11.iterate_cell_context",
-    "Lena.C11.iterate_passes",
-    "Lena.C11.iterate_passes_unselected",
+    "Lena.C11.iterate_cell_context_nested",
+    "Lena.C11.updateNested_present",
+    # sentence 6
     "Lena.C11.map_bins_shape",
     "Lena.C11.map_bins_cells_independent",
-    "Lena.C11.map_bins_start_error",
     "Lena.C11.map_bins_count_le",
-    "Lena.C11.map_bins_passes",
+    "Lena.C11.map_bins_start_error",
+    "Lena.C11.map_bins_complete",
+    "Lena.C11.map_bins_raise",
+    # construction, two-level split
     "Lena.C11.new_valid",
     "Lena.C11.new_rejects_edges",
+    "Lena.C11.two_level_cells",
+]
+# audited too, but not counted as proof obligations of the property: generic machinery, glue between model
+# functions, statements that unfold one definition, the Boolean twins of the vocabulary, closed witnesses
+AUX_THEOREMS = [
+    "Lena.C11.mdMapE_char",
+    "Lena.C11.mdSeqMapRun_out",
+    "Lena.C11.mdSeqMapRun_stop",
+    "Lena.C11.mdSeqMapRun_raise",
+    "Lena.C11.compute_context_error",
+    "Lena.C11.variable_in_context",
+    "Lena.C11.context_frame",
+    "Lena.C11.variable_fresh",
+    "Lena.C11.iterate_passes",
+    "Lena.C11.iterate_passes_unselected",
+    "Lena.C11.map_bins_passes",
     "Lena.C11.new_rejects_seq",
     "Lena.C11.new_rejects_argvar",
-    "Lena.C11.mkHistogram_ok",
     "Lena.C11.mkHistogram_nested1_ok",
-    "Lena.C11.compute_twice_untyped",
     "Lena.C11.compute_twice_typed_differs",
-    "Lena.C11.two_level_cells",
     "Lena.C11.analysis_fillAll_eq",
     "Lena.C11.cellToStringOpts_default",
     "Lena.C11.cellToStringOpts_names",
@@ -86,10 +112,8 @@ THEOREMS = [
     "Lena.C11.lexLtB_iff",
     "Lena.C11.isCellEdgesB_iff",
     "Lena.C11.inCellB_iff",
-    "Lena.C11.mdMapE_char",
-    "Lena.C11.mdSeqMapRun_out",
-    "Lena.C11.mdSeqMapRun_stop",
-    "Lena.C11.mdSeqMapRun_raise",
+    "Lena.C11.updateNested_absent",
+    "Lena.C11.traces_spec",
 ]
 TRUSTED = [
     "Lean 4.33.0 kernel; axioms limited to propext, Classical.choice, Quot.sound (audited by #print axioms on every run)",
@@ -212,17 +236,39 @@ def _split(v):
     return (v[0], v[1]) if _has_context(v) else (v, {})
 
 
+class _HistData(object):
+    """a histogram as the data part of a decoded cell (kept in its encoded form)"""
+
+    def __init__(self, j):
+        self.j = j
+
+
+def _is_hist(d):
+    from lena.structures import histogram
+    return isinstance(d, (histogram, _HistData))
+
+
+def _enc_hist(h, nm):
+    if isinstance(h, _HistData):
+        return h.j
+    return {"edges": _enc_edges(h.edges, nm), "bins": _enc_bins(h.bins, nm)}
+
+
 def _enc_value(v, nm):
-    if _has_context(v):
-        return {"d": _slots(v[0], nm), "c": _slots(v[1], nm)}
-    return {"d": _slots(v, nm)}
+    d, c = (v[0], v[1]) if _has_context(v) else (v, None)
+    if _is_hist(d):              # a cell that holds a histogram
+        return {"h": _enc_hist(d, nm), "c": None if c is None else _slots(c, nm)}
+    if c is not None:
+        return {"d": _slots(d, nm), "c": _slots(c, nm)}
+    return {"d": _slots(d, nm)}
 
 
 def _dec_value(j, nm):
     if "v" in j:
         return _dec_value(j["v"], nm)
     if "h" in j:
-        return ("<histogram>", j["h"]["edges"])
+        d = _HistData(j["h"])
+        return (d, _unslots(j["c"], nm)) if j.get("c") is not None else d
     d = _unslots(j["d"], nm)
     return (d, _unslots(j["c"], nm)) if "c" in j and j["c"] is not None else d
 
@@ -281,8 +327,8 @@ def _bins_values(b):
 
 def _enc_bins(bins, nm, fval=False):
     if isinstance(bins, list):
-        return [_enc_bins(b, nm, fval) for b in bins]
-    return _enc_fval(bins, nm) if fval else _enc_value(bins, nm)
+        return [_enc_bins(b, nm) for b in bins]
+    return _enc_value(bins, nm)
 
 
 def _dec_bins(j, nm):
@@ -322,6 +368,8 @@ def _names(case):
             _strings(_py(v["c"]), acc)
     _step_strings(case["spec"]["pre"] + case["spec"]["post"], acc)
     _strings(_argvar_context(case["argvar"]), acc)
+    if case.get("pipe"):
+        _step_strings([case["pipe"]], acc)
     inn = case.get("inner")
     if inn:
         _step_strings(inn["spec"]["pre"] + inn["spec"]["post"], acc)
@@ -348,6 +396,8 @@ def _names(case):
 # fixture elements (mirrored by Model/C11Conc.lean)
 
 def _getter(spec):
+    if spec is not None and spec.get("k") == "list":
+        return lambda d: list(d)              # the coordinates as a list instead of a tuple
     if spec is None or spec.get("k") == "id":
         return lambda d: d
     i = spec["i"]
@@ -378,7 +428,7 @@ def _argvar_context(a):
 
 def _argvar_getter_spec(a):
     if a["kind"] == "var":
-        return a["getter"]
+        return {"k": "id"} if a["getter"].get("k") == "list" else a["getter"]
     return {"k": "comb", "is": [v["i"] for v in a["vars"]]}
 
 
@@ -554,7 +604,9 @@ def _sel_arg(sel, on_value):
 def _sel_fn(sel, on_value):
     if sel == "all":
         return lambda v: True
-    if sel in ("none", "default"):          # default: bins that hold histograms (never, in these cases)
+    if sel == "default":                    # the default of IterateBins: bins that hold histograms
+        return lambda d: _is_hist(d)
+    if sel == "none":
         return lambda v: False
     if on_value:
         return lambda v: type(_split(v)[0]) is int
@@ -589,9 +641,8 @@ def _acc_state(a, nm):
 def _enc_fval(o, nm):
     from lena.structures import histogram
     data, ctx = (o[0], o[1]) if _has_context(o) else (o, None)
-    if isinstance(data, histogram):
-        return {"h": {"edges": _enc_edges(data.edges, nm), "bins": _enc_bins(data.bins, nm)},
-                "c": None if ctx is None else _slots(ctx, nm)}
+    if _is_hist(data):
+        return {"h": _enc_hist(data, nm), "c": None if ctx is None else _slots(ctx, nm)}
     return {"v": _enc_value(o, nm)}
 
 
@@ -669,9 +720,11 @@ def _stage_inputs(st, hists):
     return pre + hs + post
 
 
-def _drain_compute(sib, nm, keep, fval=False):
+def _drain_compute(sib, nm, keep):
+    """iterate compute() to its end; every value is encoded when it is yielded; `live` are the yielded objects
+    themselves, `hists` deep copies of them"""
     from lena.structures import histogram
-    outs, fin, hists = [], None, []
+    outs, fin, hists, live = [], None, [], []
     gen = sib.compute()
     while True:
         try:
@@ -684,19 +737,42 @@ def _drain_compute(sib, nm, keep, fval=False):
         hist, ctx = o
         if not isinstance(hist, histogram):
             raise AssertionError("compute() did not yield a histogram")
-        outs.append({"edges": _enc_edges(hist.edges, nm), "bins": _enc_bins(hist.bins, nm, fval),
-                     "c": _slots(ctx, nm)})
+        outs.append({"edges": _enc_edges(hist.edges, nm), "bins": _enc_bins(hist.bins, nm), "c": _slots(ctx, nm)})
         if keep:
             hists.append(copy.deepcopy((hist, ctx)))
-    return {"out": outs, "fin": fin}, hists
+            live.append(o)
+    return {"out": outs, "fin": fin}, hists, live
+
+
+def _form_edges(edges, form):
+    """the same edges as lists (default), tuples, or a mixture: any sequence is an axis for lena"""
+    if not form or form == "list":
+        return edges
+    nested = bool(edges) and isinstance(edges[0], list)
+    if not nested:
+        return tuple(edges)
+    if form == "tuple":
+        return tuple(tuple(a) for a in edges)
+    if form == "list_of_tuples":
+        return [tuple(a) for a in edges]
+    return tuple(list(a) for a in edges)          # tuple_of_lists
+
+
+def _untouched(seq):
+    """the analysis object that was handed to SplitIntoBins is still in its initial state"""
+    try:
+        return _count_in(_acc_state(_acc_of(seq), _Names([]))) == 0
+    except Exception:
+        return True
 
 
 def run_impl(case):
     import lena.core
-    from lena.structures import SplitIntoBins, IterateBins, MapBins
+    from lena.structures import SplitIntoBins, IterateBins, MapBins, histogram
     nm = _names(case)
     S = case.get("fscale", 1)
-    edges = _edges_py(case["edges"], S)
+    form = case.get("edges_form")
+    edges = _form_edges(_edges_py(case["edges"], S), form)
     seq = _make_cell_analysis(case, case.get("bare_acc", False)) if case.get("seq_ok", True) else lena.core.Sequence()
     av = _make_argvar(case["argvar"]) if case.get("argvar_ok", True) else (lambda d: d)
     try:
@@ -710,22 +786,39 @@ def run_impl(case):
         except Exception as e:
             return {"fill": {"at": k, "e": exc_name(e)}}
     res = {}
-    res["cells"] = [[list(idx), _acc_state(_acc_of(cell), nm)] for idx, cell in _iter_cells(sib.bins)]
-    res["cur"] = _slots(sib._cur_context, nm)
-    two = bool(case.get("inner"))            # two-level: the cells hold what the inner IterateBins yields
-    res["compute"], hists = _drain_compute(sib, nm, True, two)
+    # the state of the cells and `_cur_context` are private attributes: they are read because `cell_is_subflow` and
+    # `context_is_last_inside` speak about them; when they cannot be found (a refactoring) they are not compared
+    try:
+        res["cells"] = [[list(idx), _acc_state(_acc_of(cell), nm)] for idx, cell in _iter_cells(sib.bins)]
+    except AttributeError:
+        res["cells"] = None
+    res["cur"] = _slots(sib._cur_context, nm) if hasattr(sib, "_cur_context") else None
+    res["compute"], hists, live = _drain_compute(sib, nm, True)
     # a second compute() on the same object
-    res["compute2"] = _drain_compute(sib, nm, False, two)[0] if case.get("twice") else None
-    # a second SplitIntoBins built around the SAME argument-variable object (and a fresh analysis)
+    res["compute2"] = _drain_compute(sib, nm, False)[0] if case.get("twice") else None
+    # the object that was passed as `seq` must not be a cell and must not have been filled
+    res["seq_private"] = not any(cell is seq or _acc_of(cell) is _acc_of(seq) for _, cell in _iter_cells(sib.bins)) \
+        and _untouched(seq)
+    # a second SplitIntoBins built from the SAME analysis object and the SAME argument-variable object
     res["reuse"] = None
     if case.get("reuse"):
-        sib2 = SplitIntoBins(_make_cell_analysis(case, case.get("bare_acc", False)), av, _edges_py(case["edges"], S))
+        sib2 = SplitIntoBins(seq, av, _form_edges(_edges_py(case["edges"], S), form))
         for v in [_value(j, S) for j in case["flow"]]:
             sib2.fill(v)
-        res["reuse"] = _drain_compute(sib2, nm, False, two)[0]
-    # cells that hold histograms (an inner IterateBins that selected nothing) are outside the second stage
-    from lena.structures import histogram
-    hists = [(h, c) for (h, c) in hists
+        res["reuse"] = _drain_compute(sib2, nm, False)[0]
+    # a downstream element applied, one after the other, to the values compute() yielded (the objects themselves)
+    res["pipe"] = None
+    if case.get("pipe"):
+        step, pouts, pfin = _make_step(case["pipe"]), [], None
+        for o in live:
+            try:
+                pouts.append(step(o))
+            except Exception as e:
+                pfin = exc_name(e)
+                break
+        res["pipe"] = {"out": [_slots(_split(r)[1], nm) for r in pouts], "fin": pfin}
+    # MapBins: the fixture sequences work on numbers and tuples, not on histograms in the cells
+    plain = [(h, c) for (h, c) in hists
              if not any(isinstance(_split(b)[0], histogram) for _, b in _iter_cells(h.bins))]
     res["iter"] = res["map"] = None
     st = case.get("iter")
@@ -749,7 +842,7 @@ def run_impl(case):
         except Exception as e:
             el, res["map"] = None, {"init": exc_name(e)}
         if el is not None:
-            inputs = _stage_inputs(st, hists)
+            inputs = _stage_inputs(st, plain)
             enc_in = [_enc_fval(v, nm) for v in inputs]
             r = _run_stage(el, inputs, nm)
             r["in"] = enc_in
@@ -809,6 +902,7 @@ def model_requests(case):
                "vc": _slots(_argvar_context(inn["argvar"]), nm), "spec": _spec_req(inn["spec"], nm),
                "sel": inn["sel"]},
            "twice": bool(case.get("twice")),
+           "pipe": _step_req(case["pipe"], nm) if case.get("pipe") else None,
            "flow": [_enc_value(_value(v, S), nm) for v in case["flow"]],
            "iter": _stage_req(case["iter"], nm) if case.get("iter") else None,
            "map": _stage_req(case["map"], nm, True) if case.get("map") else None}
@@ -884,7 +978,9 @@ def compare(case, res, replies):
         return None if res.get("init") == m.get("init") else f"__init__: impl {res.get('init')} vs model {m.get('init')}"
     if "fill" in res or "fill" in m:
         return None if res.get("fill") == m.get("fill") else f"fill: impl {res.get('fill')} vs model {m.get('fill')}"
-    for k in ("cells", "cur", "compute", "compute2"):
+    for k in ("cells", "cur", "compute", "compute2", "pipe"):
+        if k in ("cells", "cur") and res[k] is None:
+            continue                       # private attributes not found: not compared
         if res[k] != m[k]:
             return f"{k}: impl {str(res[k])[:700]} vs model {str(m[k])[:700]}"
     if res.get("reuse") is not None and res["reuse"] != m["compute"]:
@@ -991,7 +1087,13 @@ def _reference_sib(case):
             raise _Undefined("the private analysis of a cell raised in fill")
         r, end = [], "stop"
         try:
-            for o in an.compute():
+            gen = an.compute()
+        except Exception:
+            # FillComputeSeq.compute() is evaluated immediately: an eager post-element raised when compute() was
+            # called; SplitIntoBins then raises while it creates the generators of its cells
+            raise _Undefined("the private analysis of a cell raised when compute() was called")
+        try:
+            for o in gen:
                 r.append(copy.deepcopy(o))
         except Exception:
             end = "error"
@@ -1116,7 +1218,7 @@ def _oracle_iter(case, st, cfg, nm):
                 _ref_update_nested("bins", c, copy.deepcopy(hctx))
                 _ref_update_nested("bin", c, {"edges": ce, "edges_str": _ref_edges_str(ce, hctx.get("variable"),
                                                                                          cfg.get("ces"))})
-                expected.append({"v": _enc_value((d, c), nm)})
+                expected.append(_enc_fval((d, c), nm))
         except _Undefined:
             continue
         got = groups.get(i, [])
@@ -1228,22 +1330,36 @@ def oracle(case, res):
     for j, o in enumerate(outs[:n]):
         if o["edges"] != edges:
             return f"histogram {j} has edges {o['edges']} instead of {edges}"
-        exp = _enc_bins(ref["hists"][j], nm, bool(case.get("inner")))
+        exp = _enc_bins(ref["hists"][j], nm)
         if o["bins"] != exp:
             return (f"histogram {j} over edges {edges}: bins {_dec_bins(o['bins'], nm)} differ from the results of "
                     f"private per-cell analyses on the cells' sub-flows {ref['hists'][j]} (flow {case['flow']})")
         if ref["ctx"] is not None and o["c"] != _slots(ref["ctx"], nm):
             return (f"histogram {j}: context {_unslots(o['c'], nm)} is not the context of the last value inside the "
                     f"edges with the argument variable applied, {ref['ctx']}")
+    if res.get("seq_private") is False:
+        return ("SplitIntoBins kept or filled the analysis object that was passed to it: every cell must hold a private "
+                "copy (the object is a cell, or is no longer in its initial state after the flow)")
+    if res.get("pipe") is not None and ref["end"] == "stop" and ref["ctx"] is not None:
+        step, want = _make_step(case["pipe"]), []
+        try:
+            for j in range(n):
+                want.append(_slots(_split(step((None, copy.deepcopy(ref["ctx"]))))[1], nm))
+        except Exception:
+            want = None
+        if want is not None and res["pipe"]["fin"] is None and res["pipe"]["out"] != want:
+            return (f"the values yielded by compute() are not independent: after a downstream element "
+                    f"{case['pipe']} has processed them one after the other their contexts are "
+                    f"{[_unslots(c, nm) for c in res['pipe']['out']]}, expected {[_unslots(c, nm) for c in want]}")
     if res.get("reuse") is not None and ref["end"] == "stop":
         for j, o in enumerate(res["reuse"]["out"][:n]):
-            if o["bins"] != _enc_bins(ref["hists"][j], nm, bool(case.get("inner"))) or \
+            if o["bins"] != _enc_bins(ref["hists"][j], nm) or \
                     (ref["ctx"] is not None and o["c"] != _slots(ref["ctx"], nm)):
-                return (f"a second SplitIntoBins built around the same argument variable object: histogram {j} has "
+                return (f"a second SplitIntoBins built from the same analysis and argument variable objects: histogram {j} has "
                         f"bins {_dec_bins(o['bins'], nm)} and context {_unslots(o['c'], nm)}, expected {ref['hists'][j]} "
-                        f"and {ref['ctx']} (the variable object was changed by the first run)")
+                        f"and {ref['ctx']} (the variable or analysis object was changed by the first run)")
         if len(res["reuse"]["out"]) != n or res["reuse"]["fin"] is not None:
-            return (f"a second SplitIntoBins built around the same argument variable object yields "
+            return (f"a second SplitIntoBins built from the same analysis and argument variable objects yields "
                     f"{len(res['reuse']['out'])} histograms (end {res['reuse']['fin']}) instead of {n}")
     if res.get("iter") and "init" not in res["iter"]:
         msg = _oracle_iter(case, res["iter"], case["iter"], nm)
@@ -1289,6 +1405,8 @@ def _gen_step(rng, int_data, wild=False, where="pre", flt=False):
         kinds += ["count", "count"]           # stateful elements (only modelled after the accumulator)
     if where == "map":
         kinds += ["acc", "acc", "acc", "acc"]
+    if where == "post" and not flt:             # (float cases: it would add a float sum and an integer count)
+        kinds += ["acc"]                      # an eager post-element: runs when compute() is called
     k = rng.choice(kinds)
     if k == "count":
         return {"k": "count", "name": rng.choice(["n", "a"])}, int_data
@@ -1448,11 +1566,16 @@ def _gen_two_level(rng, big):
     case = {"edges": oedges, "seq_ok": True, "argvar_ok": True, "bare_acc": False, "argvar": argvar,
             "spec": {"pre": [], "acc": "sum", "post": []},
             "inner": {"edges": iedges, "argvar": iargvar, "spec": ispec,
-                      "sel": rng.choice(["all"] * 12 + ["int", "none"])},
+                      "sel": rng.choice(["all"] * 9 + ["int", "none", "none", "none"])},
             "flow": flow, "iter": None, "map": None}
     _gen_stages(rng, case, res_int, False, do)
     if case["iter"]:
-        case["iter"]["sel"] = rng.choice(["all"] * 10 + ["int"])
+        # when the inner IterateBins selected nothing the outer cells hold histograms: the default selector
+        # of the second stage (bins that hold histograms) then selects them
+        case["iter"]["sel"] = rng.choice(["all"] * 6 + ["default"] * 5 + ["int"])
+    if rng.random() < 0.2:
+        case["reuse"] = True
+    _gen_forms(rng, case)
     return case
 
 
@@ -1496,6 +1619,7 @@ def _gen_float(rng, big):
     case = {"edges": edges, "fscale": S, "seq_ok": True, "argvar_ok": True, "bare_acc": rng.random() < 0.3,
             "argvar": argvar, "spec": spec, "flow": flow, "iter": None, "map": None}
     _gen_stages(rng, case, res_int, False, dim, True)
+    _gen_forms(rng, case)
     for st in ("iter", "map"):
         if case[st]:
             if case[st]["sel"] == "int":        # `type(data) is int` would see floats
@@ -1503,6 +1627,24 @@ def _gen_float(rng, big):
             case[st]["pre"] = [v for v in case[st]["pre"] if "h" not in v]
             case[st]["post"] = [v for v in case[st]["post"] if "h" not in v]
     return case
+
+
+_PIPES = [{"k": "setkey", "key": "a", "v": 9},
+          {"k": "var", "name": "v", "proj": None, "type": "coordinate", "kw": {}},
+          {"k": "var", "name": "v", "proj": None, "type": "", "kw": {"unit": "mm"}},
+          {"k": "setkey", "key": "variable", "v": {"name": "v"}}]
+
+
+def _gen_forms(rng, case):
+    """edges as tuples, coordinates as a list, a downstream element behind compute()"""
+    if rng.random() < 0.15:
+        case["edges_form"] = rng.choice(["tuple", "tuple", "list_of_tuples", "tuple_of_lists"])
+    a = case["argvar"]
+    if a["kind"] == "var" and a["getter"].get("k") == "id" and rng.random() < 0.5 and \
+            all(isinstance(v["d"], dict) for v in case["flow"]) and case["flow"]:
+        a["getter"] = {"k": "list"}
+    if rng.random() < 0.25:
+        case["pipe"] = copy.deepcopy(rng.choice(_PIPES))
 
 
 def _gen_random(rng, big):
@@ -1566,10 +1708,11 @@ def _gen_random(rng, big):
     case = {"edges": edges, "seq_ok": True, "argvar_ok": True, "bare_acc": rng.random() < 0.3, "argvar": argvar,
             "spec": spec, "flow": flow, "iter": None, "map": None}
     _gen_stages(rng, case, res_int, wild, len(axes))
-    if rng.random() < 0.25 and not any(st["k"] == "count" for st in spec["post"]):
+    if rng.random() < 0.25 and not any(st["k"] in ("count", "acc") for st in spec["post"]):
         case["twice"] = True                    # compute() a second time on the same object
     if rng.random() < 0.2:
-        case["reuse"] = True                    # a second SplitIntoBins around the same variable object
+        case["reuse"] = True                    # a second SplitIntoBins from the same analysis and variable objects
+    _gen_forms(rng, case)
     if rng.random() < 0.04:
         bad = rng.random()
         if bad < 0.3:
@@ -1643,6 +1786,8 @@ def gen_cases(ctx):
 def nontrivial(case, res):
     if "compute" not in res or not res["compute"]["out"]:
         return False
+    if res.get("cells") is None:
+        return True
     ncells = len(res["cells"])
     inside = sum(_count_in(c[1]) for c in res["cells"])
     return ncells >= 2 and inside >= 2
@@ -1689,8 +1834,27 @@ def classify(case, res):
         if any(s["k"] in ("count", "acc") for s in case["spec"]["post"]):
             labels.append("post-stateful")
         if case.get("map") and any(s["k"] in ("count", "acc") for s in case["map"]["steps"]):
-            labels.append("map-stateful" + ("-multicell" if len(res["cells"]) >= 2 and res["compute"]["out"] else ""))
+            labels.append("map-stateful" + ("-multicell" if len(res["cells"] or []) >= 2 and res["compute"]["out"] else ""))
+        for k in ("edges_form", "pipe", "reuse"):
+            if case.get(k):
+                labels.append(k)
+        if case["argvar"].get("getter", {}).get("k") == "list":
+            labels.append("list-coordinates")
+        if any(s["k"] == "acc" for s in (case.get("inner") or case)["spec"]["post"]):
+            labels.append("eager-post-element")
+        if res.get("iter") and "in" in res["iter"] and any(
+                "h" in f and any("h" in c for c in _flat_cells(f["h"]["bins"])) for f in res["iter"]["in"]):
+            labels.append("iter:histogram-valued-cells")
     return labels
+
+
+def _flat_cells(b):
+    if isinstance(b, list):
+        for x in b:
+            for c in _flat_cells(x):
+                yield c
+    else:
+        yield b
 
 
 def signature(case, failure):
